@@ -380,6 +380,17 @@ func runC16Once(c *c16Case) (v verdict, sig string, err error) {
 	}
 	off := on
 	off.Mirror = false
+	if len(c.Quiet) > 0 {
+		// the run without mirroring needs no quiet spells
+		off.Phases = make([][]drvDatagram, len(on.Phases))
+		for i, ph := range on.Phases {
+			off.Phases[i] = append([]drvDatagram{}, ph...)
+			for k := range off.Phases[i] {
+				off.Phases[i][k].PauseMS = 0
+			}
+		}
+		off.MirrorLive = false
+	}
 
 	if on.MirrorLive {
 		// a dispatcher that reads the mirror queue while the phases run goes on reading it for the rest of the process:
